@@ -356,7 +356,7 @@ Definition view_ids (d : fd) : list id := bsort (filter (vis d) keys).
 Lemma fd_ids_char d : wf ds d -> exists o, fd_ids d = Val o /\ bsort o = view_ids d.
 Proof.
   unfold view_ids. destruct d as [tbl cs bs|tbl st sp cs bs|b ids]; cbn [fd_ids vis wf]; intros W.
-  - exists (bsort (mem_ids tbl)). split; [reflexivity|]. unfold mem_ids. rewrite !bsort_idem.
+  - exists (bsort (mem_ids tbl)). split; [reflexivity|]. unfold mem_ids, in_memory_init_client_ids. rewrite !bsort_idem.
     destruct W as [NT I]. apply bsort_unique_filter; auto. intros i. split.
     + intros H. split; [|now apply bmem_In]. apply in_map_iff in H. destruct H as [x [<- Hx]].
       apply in_map. now apply I.
@@ -381,7 +381,7 @@ Proof.
   rewrite bsort_length. apply bsort_eq_length in S.
   destruct d as [tbl cs bs|tbl st sp cs bs|b ids]; cbn [fd_num fd_ids] in *;
     unfold in_memory_num_clients, in_memory_client_ids, subset_num_clients, subset_client_ids in *.
-  - injection E as <-. rewrite <- S. unfold mem_ids. now rewrite !bsort_length.
+  - injection E as <-. rewrite <- S. unfold mem_ids, in_memory_init_client_ids. now rewrite !bsort_length.
   - subst. rewrite sql_select_spec in *. injection E as <-. rewrite <- S. now rewrite map_length.
   - injection E as <-. rewrite <- S. now rewrite bsort_length.
 Qed.
@@ -397,7 +397,7 @@ Proof.
     rewrite bsort_idem in S. exists (mem_ids tbl). split; [|exact S].
     destruct W as [NT I].
     rewrite (omap_all _ (fun i => (i, match bassoc i ds with Some r => stored_len r | None => 0 end))); [reflexivity|].
-    intros i Hi. unfold mem_ids in Hi. apply (proj1 (bsort_In _ _)) in Hi. rewrite (bassoc_sub tbl ds i ND NT I).
+    intros i Hi. unfold mem_ids, in_memory_init_client_ids in Hi. apply (proj1 (bsort_In _ _)) in Hi. rewrite (bassoc_sub tbl ds i ND NT I).
     apply bmem_In in Hi. rewrite Hi. apply bmem_In, in_map_iff in Hi. destruct Hi as [[k v] [Ek Hin]]. cbn in Ek; subst.
     rewrite (bassoc_NoDup_In i v ds ND (I _ Hin)). reflexivity.
   - destruct (fd_ids_char (Sql tbl st sp cs bs) W) as [o [E S]]. cbn [fd_ids] in E. subst tbl.
@@ -421,7 +421,7 @@ Proof.
   destruct d as [tbl cs bs|tbl st sp cs bs|b ids]; cbn [fd_clients fd_ids] in *.
   - injection E as <-. rewrite bsort_idem in S. exists (mem_ids tbl). split; [|exact S].
     rewrite fd_gets_char by assumption. apply gets_all. intros i Hi. apply fd_get_vis; [assumption|].
-    cbn [vis]. unfold mem_ids in Hi. apply (proj1 (bsort_In _ _)) in Hi. now apply bmem_In.
+    cbn [vis]. unfold mem_ids, in_memory_init_client_ids in Hi. apply (proj1 (bsort_In _ _)) in Hi. now apply bmem_In.
   - cbn [wf] in W. subst tbl. rewrite sql_select_spec in *. injection E as <-. eexists; split; [|exact S].
     rewrite (omap_all _ (fun kv => (fst kv, client_dataset (fst kv) cs bs (snd kv)))) by reflexivity.
     f_equal. rewrite map_map. apply map_ext_in. intros [k v] Hin. apply filter_In in Hin. destruct Hin as [Hin _].
@@ -440,11 +440,11 @@ Proof.
   induction d as [tbl cs bs|tbl st sp cs bs|b IH ids]; cbn [fd_slice vis wf chain_c chain_b]; intros W.
   - destruct W as [NT I]. rewrite in_memory_slice_spec.
     destruct (restrict_spec tbl (filter (in_range (s, e)) (mem_ids tbl))) as [t [E [M It]]].
-    { intros i Hi. apply filter_In in Hi. destruct Hi as [Hi _]. unfold mem_ids in Hi. now apply (proj1 (bsort_In _ _)) in Hi. }
+    { intros i Hi. apply filter_In in Hi. destruct Hi as [Hi _]. unfold mem_ids, in_memory_init_client_ids in Hi. now apply (proj1 (bsort_In _ _)) in Hi. }
     unfold in_memory_slice_ctor. rewrite E. exists (Mem t cs bs). cbn [wf vis chain_c chain_b]. repeat split; auto.
-    + rewrite M. apply NoDup_filter. unfold mem_ids. now apply bsort_NoDup.
+    + rewrite M. apply NoDup_filter. unfold mem_ids, in_memory_init_client_ids. now apply bsort_NoDup.
     + intros x Hx. apply I, It, Hx.
-    + intros i. rewrite M, bmem_filter. unfold mem_ids. now rewrite bmem_bsort.
+    + intros i. rewrite M, bmem_filter. unfold mem_ids, in_memory_init_client_ids. now rewrite bmem_bsort.
   - subst. rewrite sqlite_slice_spec. eexists. split; [reflexivity|]. cbn [wf vis chain_c chain_b]. repeat split.
     intros i. rewrite in_range_intersect. now rewrite andb_assoc.
   - destruct W as [Wb [Hn Hs]]. destruct (IH Wb) as [b' [E [Wb' [Hv [Hc Hb]]]]].
@@ -963,7 +963,7 @@ Theorem mem_dict_order_irrelevant : forall tbl tbl' cs bs,
 Proof.
   intros tbl tbl' cs bs N P. cbv zeta.
   assert (M : mem_ids tbl = mem_ids tbl').
-  { unfold mem_ids. apply bsort_perm_unique; [exact N|]. now apply Permutation_map. }
+  { unfold mem_ids, in_memory_init_client_ids. apply bsort_perm_unique; [exact N|]. now apply Permutation_map. }
   assert (L : forall i, bassoc i tbl = bassoc i tbl') by (intros i; now apply bassoc_perm).
   assert (G : forall i, fd_get (Mem tbl cs bs) i = fd_get (Mem tbl' cs bs) i) by (intros i; cbn [fd_get]; now rewrite L).
   assert (GS : forall req, fd_gets (Mem tbl cs bs) req = fd_gets (Mem tbl' cs bs) req).
@@ -1040,3 +1040,64 @@ Proof.
   - intros fns ex. unfold batch_preprocessor_call. destruct fns; reflexivity.
   - intros raw pre. unfold client_dataset_all_examples, batch_preprocessor_call. destruct pre; reflexivity.
 Qed.
+
+(* ------------------------------------------------------------------ *)
+(* iteration order is a deterministic function of (dataset, operations): which one *)
+
+Definition top_is_sql (d : fd) : bool := match d with Sql _ _ _ _ _ => true | _ => false end.
+
+Section Order.
+Variable ds : table.
+Hypothesis ND : NoDup (map fst ds).
+
+Lemma sorted_enum_unique o l : o = bsort o -> bsort o = l -> o = l.
+Proof. intros E1 E2. now rewrite E1. Qed.
+
+Theorem iteration_order : forall p ops,
+  exists d fl, impl_run p ds ops = Some (d, fl) /\
+    let v := fst (spec_run ds view0 ops) in
+    let order := if top_is_sql d then filter (visible v) (map fst ds)   (* SQLite: rowid = insertion order *)
+                 else spec_ids ds v in                                   (* in-memory, subset: sorted by id *)
+    fd_ids d = Val (if top_is_sql d then order else spec_ids ds v) /\
+    map fst (fst (fd_clients d)) = order /\ snd (fd_clients d) = Done.
+Proof.
+  intros p ops. destruct (impl_run_state ds ND p ops) as [d [fl [o [E [Ei [Eo HR]]]]]].
+  exists d, fl. split; [exact E|]. cbv zeta.
+  assert (W : wf ds d) by apply HR.
+  destruct (fd_ids_char ds ND d W) as [o1 [E1 S1]]. destruct (fd_clients_char ds ND d W) as [o2 [E2 S2]].
+  rewrite (view_ids_spec ds d _ HR) in S1, S2.
+  assert (MF : forall l, map fst (map (fun i => (i, content ds d i)) l) = l).
+  { intros l. rewrite map_map. cbn. apply map_id. }
+  destruct d as [tbl cs bs|tbl st sp cs bs|b ids]; cbn [top_is_sql].
+  - cbn [fd_ids] in E1. injection E1 as <-. rewrite E2. cbn [fst snd]. rewrite MF.
+    split; [|split; [|reflexivity]].
+    + cbn [fd_ids]. f_equal.
+      apply sorted_enum_unique; [|exact S1]. unfold in_memory_client_ids. now rewrite bsort_idem.
+    + (* clients() walks self._client_ids = mem_ids tbl, which is sorted *)
+      assert (Q : fd_clients (Mem tbl cs bs) = (map (fun i => (i, content ds (Mem tbl cs bs) i)) (mem_ids tbl), Done)).
+      { unfold fd_clients. rewrite (fd_gets_char ds ND) by assumption. apply gets_all. intros i Hi. apply (fd_get_vis ds ND); [assumption|].
+        cbn [vis]. unfold mem_ids, in_memory_init_client_ids in Hi. apply (proj1 (bsort_In _ _)) in Hi. now apply bmem_In. }
+      rewrite Q in E2. injection E2 as E2. apply (f_equal (map fst)) in E2. rewrite !MF in E2. rewrite <- E2.
+      apply sorted_enum_unique; [unfold mem_ids, in_memory_init_client_ids; now rewrite bsort_idem|].
+      rewrite E2. exact S2.
+  - cbn [wf] in W. subst tbl.
+    assert (F : filter (visible (fst (spec_run ds view0 ops))) (map fst ds) =
+                map fst (filter (fun kv => in_range (st, sp) (fst kv)) ds)).
+    { rewrite map_fst_filter. apply filter_ext_in. intros i Hi. destruct HR as [_ [Hv _]]. specialize (Hv i).
+      cbn [vis] in Hv. unfold spec_has in Hv. apply bmem_In in Hi. rewrite Hi in Hv. cbn [andb] in Hv. now rewrite <- Hv. }
+    split; [|split].
+    + rewrite Ei. f_equal. cbn [fd_ids] in Ei. rewrite sql_select_spec in Ei. injection Ei as <-. now rewrite F.
+    + cbn [fd_clients]. rewrite sql_select_spec.
+      rewrite (omap_all _ (fun kv => (fst kv, client_dataset (fst kv) cs bs (snd kv)))) by reflexivity.
+      cbn [fst]. rewrite map_map. cbn [fst]. now rewrite F.
+    + rewrite E2. reflexivity.
+  - cbn [fd_ids] in E1. injection E1 as <-. rewrite E2. cbn [fst snd]. rewrite MF. split; [|split; [|reflexivity]].
+    + cbn [fd_ids]. f_equal.
+      apply sorted_enum_unique; [|exact S1]. unfold subset_client_ids. now rewrite bsort_idem.
+    + assert (Q : fd_clients (Sub b ids) = (map (fun i => (i, content ds (Sub b ids) i)) (bsort ids), Done)).
+      { unfold fd_clients. rewrite (fd_gets_char ds ND) by assumption. apply gets_all. intros i Hi. apply (fd_get_vis ds ND); [assumption|].
+        cbn [vis]. apply (proj1 (bsort_In _ _)) in Hi. now apply bmem_In. }
+      rewrite Q in E2. injection E2 as E2. apply (f_equal (map fst)) in E2. rewrite !MF in E2. rewrite <- E2.
+      apply sorted_enum_unique; [now rewrite bsort_idem|]. rewrite E2. exact S2.
+Qed.
+End Order.
